@@ -308,8 +308,10 @@ func (c *ctx) fixMapMin(s *spec.Spec) {
 
 // nodeFor generates a schema for a Go field type of the struct catalogue.
 func (c *ctx) nodeFor(depth int, gt reflect.Type) *spec.Spec {
+	isPtr := false
 	for gt.Kind() == reflect.Pointer && gt != typeRegexp {
 		gt = gt.Elem()
+		isPtr = true
 	}
 	switch {
 	case gt == typeInt64:
@@ -338,6 +340,15 @@ func (c *ctx) nodeFor(depth int, gt reflect.Type) *spec.Spec {
 			return c.kind(rapid.SampledFrom(c.leafKinds()).Draw(c.t, "anyLeaf"), depth)
 		}
 		return c.node(depth, nil)
+	case gt.Kind() == reflect.Slice && gt.Elem() == typeAny:
+		// []any can only hold a list whose items' native type is `any` itself: any or one-of
+		items := &spec.Spec{Kind: spec.KAny}
+		if c.o.OneOf && depth+1 < c.o.MaxDepth && rapid.Bool().Draw(c.t, "loOneOf") {
+			items = c.oneOf(rapid.SampledFrom([]string{spec.KOneOfS, spec.KOneOfI}).Draw(c.t, "loOneOfKind"), depth+1)
+		}
+		s := &spec.Spec{Kind: spec.KList, Items: items}
+		s.Min, s.Max = c.intBounds(0, 4)
+		return s
 	case gt.Kind() == reflect.Slice:
 		s := &spec.Spec{Kind: spec.KList, Items: c.nodeFor(depth+1, gt.Elem())}
 		s.Min, s.Max = c.intBounds(0, 4)
@@ -363,7 +374,12 @@ func (c *ctx) nodeFor(depth int, gt reflect.Type) *spec.Spec {
 		c.fixMapMin(s)
 		return s
 	case gt.Kind() == reflect.Struct:
+		// pointer fields pair with the pointer form of the struct-mapped schema, value fields with the value form
+		// (the pairing used throughout the SDK's own tests)
 		name := spec.CatalogueNameOf(gt)
+		if isPtr {
+			name = "*" + name
+		}
 		return c.object(depth, name)
 	}
 	panic(fmt.Sprintf("gen: no schema for Go type %s", gt))
@@ -377,6 +393,7 @@ func (c *ctx) object(depth int, structName string) *spec.Spec {
 		}
 	}
 	o := &spec.Spec{Kind: spec.KObject, ID: c.id("O"), Struct: structName}
+	var selfRefs []string
 	if structName == "" {
 		o.IDUnenforced = rapid.IntRange(0, 5).Draw(c.t, "idUnenforced") == 0
 		n := rapid.IntRange(0, 4).Draw(c.t, "nProps")
@@ -418,6 +435,8 @@ func (c *ctx) object(depth int, structName string) *spec.Spec {
 			if spec.CatalogueNameOf(ft) == "Node" && strings.TrimPrefix(structName, "*") == "Node" && c.inScope && c.o.Refs {
 				// self reference through the scope
 				pt = &spec.Spec{Kind: spec.KRef, RefID: o.ID}
+				selfRefs = append(selfRefs, f.Prop)
+				o.Struct = "*Node" // the member is a *Node field: pointer form
 			} else if spec.CatalogueNameOf(et) == "Node" && strings.TrimPrefix(structName, "*") == "Node" {
 				continue
 			} else {
@@ -429,6 +448,13 @@ func (c *ctx) object(depth int, structName string) *spec.Spec {
 	c.decorate(o)
 	if structName != "" {
 		c.fixStruct(o)
+	}
+	// a self-referential member must be optional, otherwise the object has no finite value
+	for _, n := range selfRefs {
+		if p := o.PropByName(n); p != nil {
+			p.Required = false
+			stripRules(o, n)
+		}
 	}
 	return o
 }
@@ -476,6 +502,20 @@ func (c *ctx) fixStruct(o *spec.Spec) {
 		}
 		if ft.Kind() == reflect.Pointer || ft.Kind() == reflect.Interface {
 			continue
+		}
+		if p.Disabled {
+			// a disabled property on a field that cannot express absence would be "in use" in every serialized
+			// value; only the treat-empty-as-default form keeps it out of the serialized data
+			if c.o.EmptyIsDef {
+				if _, z := ZeroMV(p.Type); z {
+					p.EmptyIsDefault = true
+					p.Required = false
+					stripRules(o, p.Name)
+					ev.Class("struct_value_field:disabled_empty_is_default", 1)
+					continue
+				}
+			}
+			p.Disabled = false
 		}
 		zero, hasZero := ZeroMV(p.Type)
 		if !hasZero {
@@ -610,6 +650,11 @@ func AddDefaults(t *rapid.T, root *spec.Spec, o Opts) {
 					continue
 				}
 				if !o.Defaults || p.Disabled || rapid.IntRange(0, 3).Draw(t, "hasDefault") != 0 {
+					continue
+				}
+				if p.Type.Kind == spec.KRef && p.Type.RefID == s.ID {
+					// a default on a self-referential member would describe an infinite value
+					ev.Class("pruned_default_on_recursive_member", 1)
 					continue
 				}
 				// a by-value object member of a struct-mapped object whose sub-object declares defaults: the SDK
@@ -885,7 +930,13 @@ func (c *ctx) hoist(s *spec.Spec, sc *spec.Spec, isRoot bool) {
 			for i := range s.Props {
 				visit(&s.Props[i].Type)
 			}
-			if rapid.IntRange(0, 2).Draw(c.t, "hoist") == 0 {
+			selfRef := false
+			for i := range s.Props {
+				if s.Props[i].Type.Kind == spec.KRef && s.Props[i].Type.RefID == s.ID {
+					selfRef = true // a self-referential object must be in the scope's table
+				}
+			}
+			if selfRef || rapid.IntRange(0, 2).Draw(c.t, "hoist") == 0 {
 				sc.Objects = append(sc.Objects, s)
 				*ps = &spec.Spec{Kind: spec.KRef, RefID: s.ID, Display: c.display("ref")}
 			}
